@@ -548,25 +548,34 @@ func fsConcurrent(h *fsHarness, p *prng, rounds int) {
 		}
 		// reading the files oldest to newest (rotated files by timestamp, then the active plain file) keeps
 		// every writer's own events in the order it sent (and had acknowledged) them
-		var seq []int
-		for _, f := range fs {
+		var seq, fileOf []int
+		for fi, f := range fs {
 			if f.kind == "ts" {
 				seq = append(seq, f.ids...)
+				for range f.ids {
+					fileOf = append(fileOf, fi)
+				}
 			}
 		}
-		for _, f := range fs {
+		for fi, f := range fs {
 			if f.kind == "plain" {
 				seq = append(seq, f.ids...)
+				for range f.ids {
+					fileOf = append(fileOf, fi)
+				}
 			}
 		}
-		lastOf := map[int]int{}
-		for _, id := range seq {
+		lastOf, lastFile := map[int]int{}, map[int]int{}
+		for k, id := range seq {
 			w := id / 1000
 			if id <= lastOf[w] {
 				h.oracle("C08 concurrent writers: reading the files oldest to newest, event %d of writer %d comes after its event %d: acknowledgement order lost across files", id, w, lastOf[w])
+				if lastFile[w] != fileOf[k] {
+					h.oracle("C15 concurrent writers: the time stamps in the file names do not increase with the order in which the files were made (the file with time stamp %d, holding later events of writer %d, sorts before the one with %d, which holds earlier ones): retention by name would keep the wrong files", fs[lastFile[w]].key, w, fs[fileOf[k]].key)
+				}
 				break
 			}
-			lastOf[w] = id
+			lastOf[w], lastFile[w] = id, fileOf[k]
 		}
 		h.st.Ops += nW * 40
 		h.st.hit(fmt.Sprintf("concurrent:writers=%d", nW))
